@@ -1,8 +1,90 @@
 import Genshi.Wire
+import Genshi.WireCore
+import Genshi.Model.XmlSer
+import Genshi.Model.XmlReader
+import Genshi.Model.XmlParser
 namespace Driver.C02
-open Genshi
+open Genshi Genshi.Xml Genshi.Sexp
 
-/-- stub: the model driver for C02 is not built yet -/
-def handle : List Sexp → Option Sexp := fun _ => none
+/-
+  verbs (first token after `C02`):
+    emptytag <stream>                  -> list of events, EMPTY as ( EM qname attrs )
+    flatten <pref> <stream>            -> flattened events after EmptyTagFilter + NamespaceFlattener
+    xser <stream>                      -> ( ok text ) | raise
+    enc <ranges> <text>                -> text with character references
+    tok <text>                         -> ( ok tokens ) | N
+    read <text>                        -> ( ok events ) | N
+    roundtrip <ranges> <stream>        -> read (enc (ser stream))
+    coalesce <stream>                  -> stream
+    qname <text>                       -> ( ns loc )
+  <pref> = ( ( uri prefix ) ... ), <ranges> = ( ( lo hi ) ... )
+-/
+
+def attrsS (a : List (Str × Str)) : Sexp := .list (a.map fun (n, v) => .list [.str n, .str v])
+
+def fev : FEv → Sexp
+  | .start n a => .list [.atom "S", .str n, attrsS a]
+  | .empty n a => .list [.atom "EM", .str n, attrsS a]
+  | .end_ n => .list [.atom "E", .str n]
+  | .other e => e.toSexp
+
+def xev : XEv → Sexp
+  | .ev e => e.toSexp
+  | .empty t a => .list [.atom "EM", t.toSexp, attrsToSexp a]
+
+def rev : REv → Sexp
+  | .start t a => .list [.atom "S", t.toSexp, attrsToSexp a]
+  | .end_ t => .list [.atom "E", t.toSexp]
+  | .text s => .list [.atom "T", .str s]
+  | .comment s => .list [.atom "C", .str s]
+  | .pi t d => .list [.atom "PI", .str t, .str d]
+  | .startCdata => .atom "SC"
+  | .endCdata => .atom "EC"
+  | .xmlDecl v e s => .list [.atom "XD", .str v, optStr e, ofInt s]
+  | .doctype n p s => .list [.atom "DT", .str n, optStr p, optStr s]
+
+def pref? : Sexp → Option (List (Str × Str))
+  | .list xs => xs.mapM fun
+      | .list [.str u, .str p] => some (u, p)
+      | _ => none
+  | _ => none
+
+def ranges? : Sexp → Option (List (Nat × Nat))
+  | .list xs => xs.mapM fun
+      | .list [a, b] => do let a ← a.toNat?; let b ← b.toNat?; pure (a, b)
+      | _ => none
+  | _ => none
+
+def okList (f : α → Sexp) : Option (List α) → Sexp
+  | some xs => .list [.atom "ok", .list (xs.map f)]
+  | none => .atom "N"
+
+def handle : List Sexp → Option Sexp
+  | [.atom "emptytag", s] => do
+      let s ← streamOfSexp? s
+      pure (.list ((emptyTag s).map xev))
+  | [.atom "flatten", p, s] => do
+      let p ← pref? p; let s ← streamOfSexp? s
+      pure (.list ((flatten p (emptyTag s)).map fev))
+  | [.atom "xser", s] => do
+      let s ← streamOfSexp? s
+      match serialize s with
+      | some t => pure (.list [.atom "ok", .str t])
+      | none => pure (.atom "raise")
+  | [.atom "enc", r, .str t] => do
+      let r ← ranges? r
+      pure (.str (encodeText (inRanges r) t))
+  | [.atom "tok", .str t] => some (okList fev (Reader.tokenize t))
+  | [.atom "read", .str t] => some (okList rev (Reader.read t))
+  | [.atom "roundtrip", r, s] => do
+      let r ← ranges? r; let s ← streamOfSexp? s
+      match serialize s with
+      | some t => pure (okList rev (Reader.read (encodeText (inRanges r) t)))
+      | none => pure (.atom "raise")
+  | [.atom "coalesce", s] => do
+      let s ← streamOfSexp? s
+      pure (streamToSexp (coalesce s))
+  | [.atom "qname", .str t] => some (qnameOf t).toSexp
+  | _ => none
 
 end Driver.C02
